@@ -130,7 +130,9 @@ PROPS = {
              "TTL reporting and per-command deadline rules + correspondence with keys in each lifetime phase (real clock, margins)",
              findings=["exat-deadline-nanoseconds"],
              assumptions=SEQ_ASSUME + ["timer/clock accuracy of the Go runtime is trusted; observations keep >= 50 ms away from deadlines"]),
-    "C08": P(["PropC08"], ["C08"],
+    "C08": P(["PropC08", "PropC08Oracles"], ["C08"],
+             "the oracles of the volume-scale rounds are theorems about every sequential order (PropC08Oracles.v: uniform snapshots, conditional pushes never create, "
+             "optimistic counter = committed EXECs + INCRs, each also composed with C08_linearizable); "
              "atomicity: a machine of invoke/execute/respond events in which 'execute' is one step of the sequential emulator is linearizable in execute order "
              "(replies and final state equal the sequential run, program order and real-time order respected; any number of clients and interleavings); that every Go "
              "command really is one lock section is re-checked on every run from the regenerated fact table (GenLockCheck.v over LockFacts.v: every store method "
